@@ -31,8 +31,93 @@ pub enum R2 {
     DontCare { at: usize },
 }
 
+#[derive(Clone, Debug, Default)]
+pub struct PFunc {
+    pub def: usize,
+    pub params: Vec<usize>,
+    pub blocks: Vec<(usize, Vec<usize>)>,
+    pub end: usize,
+}
+
+/// Where every input instruction (by index) is stored.
+#[derive(Clone, Debug, Default)]
+pub struct Placement {
+    pub capabilities: Vec<usize>,
+    pub extensions: Vec<usize>,
+    pub ext_inst_imports: Vec<usize>,
+    pub memory_model: Option<usize>,
+    pub entry_points: Vec<usize>,
+    pub execution_modes: Vec<usize>,
+    pub debug_string_source: Vec<usize>,
+    pub debug_names: Vec<usize>,
+    pub debug_module_processed: Vec<usize>,
+    pub annotations: Vec<usize>,
+    pub types_global_values: Vec<usize>,
+    pub functions: Vec<PFunc>,
+}
+
+impl Placement {
+    /// Expected assembly order (indices into the input instruction list).
+    pub fn order(&self) -> Vec<usize> {
+        let mut v = vec![];
+        v.extend(&self.capabilities);
+        v.extend(&self.extensions);
+        v.extend(&self.ext_inst_imports);
+        v.extend(self.memory_model.iter());
+        v.extend(&self.entry_points);
+        v.extend(&self.execution_modes);
+        v.extend(&self.debug_string_source);
+        v.extend(&self.debug_names);
+        v.extend(&self.debug_module_processed);
+        v.extend(&self.annotations);
+        v.extend(&self.types_global_values);
+        for f in &self.functions {
+            v.push(f.def);
+            v.extend(&f.params);
+            for (l, b) in &f.blocks {
+                v.push(*l);
+                v.extend(b);
+            }
+            v.push(f.end);
+        }
+        v
+    }
+    /// The model module (header left to the caller).
+    pub fn to_module(&self, insts: &[dr::Instruction]) -> dr::Module {
+        let pick = |v: &Vec<usize>| -> Vec<dr::Instruction> {
+            v.iter().map(|i| insts[*i].clone()).collect()
+        };
+        let mut m = dr::Module::new();
+        m.capabilities = pick(&self.capabilities);
+        m.extensions = pick(&self.extensions);
+        m.ext_inst_imports = pick(&self.ext_inst_imports);
+        m.memory_model = self.memory_model.map(|i| insts[i].clone());
+        m.entry_points = pick(&self.entry_points);
+        m.execution_modes = pick(&self.execution_modes);
+        m.debug_string_source = pick(&self.debug_string_source);
+        m.debug_names = pick(&self.debug_names);
+        m.debug_module_processed = pick(&self.debug_module_processed);
+        m.annotations = pick(&self.annotations);
+        m.types_global_values = pick(&self.types_global_values);
+        for f in &self.functions {
+            let mut df = dr::Function::new();
+            df.def = Some(insts[f.def].clone());
+            df.end = Some(insts[f.end].clone());
+            df.parameters = pick(&f.params);
+            for (l, b) in &f.blocks {
+                let mut db = dr::Block::new();
+                db.label = Some(insts[*l].clone());
+                db.instructions = pick(b);
+                df.blocks.push(db);
+            }
+            m.functions.push(df);
+        }
+        m
+    }
+}
+
 pub struct R2Accept {
-    pub module: dr::Module,
+    pub placement: Placement,
     /// OpLine/OpNoLine inside a function but outside a block (outside C01's guarantee)
     pub line_outside_block: bool,
     pub memory_models: usize,
@@ -42,41 +127,20 @@ pub struct R2Accept {
     pub reordered: bool,
 }
 
-/// Expected sequence of instructions when assembling `m` (own traversal).
-pub fn model_order(m: &dr::Module) -> Vec<&dr::Instruction> {
-    let mut v: Vec<&dr::Instruction> = vec![];
-    v.extend(m.capabilities.iter());
-    v.extend(m.extensions.iter());
-    v.extend(m.ext_inst_imports.iter());
-    v.extend(m.memory_model.iter());
-    v.extend(m.entry_points.iter());
-    v.extend(m.execution_modes.iter());
-    v.extend(m.debug_string_source.iter());
-    v.extend(m.debug_names.iter());
-    v.extend(m.debug_module_processed.iter());
-    v.extend(m.annotations.iter());
-    v.extend(m.types_global_values.iter());
-    for f in &m.functions {
-        v.extend(f.def.iter());
-        v.extend(f.parameters.iter());
-        for b in &f.blocks {
-            v.extend(b.label.iter());
-            v.extend(b.instructions.iter());
-        }
-        v.extend(f.end.iter());
-    }
-    v
+struct OpenFunc {
+    def: usize,
+    params: Vec<usize>,
+    blocks: Vec<(usize, Vec<usize>)>,
 }
 
-pub fn r2_load(insts: &[dr::Instruction]) -> R2 {
-    let mut m = dr::Module::new();
-    let mut func: Option<dr::Function> = None;
-    let mut block: Option<dr::Block> = None;
+/// The loader model: `names[i]` is the opname of the i-th instruction.
+pub fn r2_load(names: &[&str]) -> R2 {
+    let mut m = Placement::default();
+    let mut func: Option<OpenFunc> = None;
+    let mut block: Option<(usize, Vec<usize>)> = None;
     let mut line_outside_block = false;
     let mut memory_models = 0;
     let mut hoisted = false;
-    let mut max_rank = 0u32;
-    let mut reordered = false;
     macro_rules! rej {
         ($i:expr, $e:expr) => {
             return R2::Reject {
@@ -85,8 +149,7 @@ pub fn r2_load(insts: &[dr::Instruction]) -> R2 {
             }
         };
     }
-    for (i, inst) in insts.iter().enumerate() {
-        let name = inst.class.opname;
+    for (i, name) in names.iter().enumerate() {
         let mut l = layout(name);
         if l == Layout::BlockOrDontCare {
             if block.is_some() {
@@ -95,72 +158,54 @@ pub fn r2_load(insts: &[dr::Instruction]) -> R2 {
                 return R2::DontCare { at: i };
             }
         }
-        let rank: u32 = match l {
-            Layout::Capability => 1,
-            Layout::Extension => 2,
-            Layout::ExtInstImport => 3,
-            Layout::MemoryModel => 4,
-            Layout::EntryPoint => 5,
-            Layout::ExecutionMode => 6,
-            Layout::DebugStringSource => 7,
-            Layout::DebugName => 8,
-            Layout::ModuleProcessed => 9,
-            Layout::Annotation => 10,
-            Layout::TypeConst => 11,
-            Layout::Line => {
-                if func.is_some() {
-                    12
-                } else {
-                    11
-                }
-            }
-            Layout::VarUndef => {
-                if func.is_some() {
-                    12
-                } else {
-                    11
-                }
-            }
-            _ => 12,
-        };
-        if rank < max_rank {
-            reordered = true;
-        }
-        max_rank = max_rank.max(rank);
-        if rank <= 11 && func.is_some() && l != Layout::Line {
+        let module_level = matches!(
+            l,
+            Layout::Capability
+                | Layout::Extension
+                | Layout::ExtInstImport
+                | Layout::MemoryModel
+                | Layout::EntryPoint
+                | Layout::ExecutionMode
+                | Layout::DebugStringSource
+                | Layout::DebugName
+                | Layout::ModuleProcessed
+                | Layout::Annotation
+                | Layout::TypeConst
+        );
+        if module_level && func.is_some() {
             hoisted = true;
         }
         match l {
             Layout::DontCare | Layout::BlockOrDontCare => return R2::DontCare { at: i },
-            Layout::Capability => m.capabilities.push(inst.clone()),
-            Layout::Extension => m.extensions.push(inst.clone()),
-            Layout::ExtInstImport => m.ext_inst_imports.push(inst.clone()),
+            Layout::Capability => m.capabilities.push(i),
+            Layout::Extension => m.extensions.push(i),
+            Layout::ExtInstImport => m.ext_inst_imports.push(i),
             Layout::MemoryModel => {
                 memory_models += 1;
-                m.memory_model = Some(inst.clone());
+                m.memory_model = Some(i);
             }
-            Layout::EntryPoint => m.entry_points.push(inst.clone()),
-            Layout::ExecutionMode => m.execution_modes.push(inst.clone()),
-            Layout::DebugStringSource => m.debug_string_source.push(inst.clone()),
-            Layout::DebugName => m.debug_names.push(inst.clone()),
-            Layout::ModuleProcessed => m.debug_module_processed.push(inst.clone()),
-            Layout::Annotation => m.annotations.push(inst.clone()),
-            Layout::TypeConst => m.types_global_values.push(inst.clone()),
+            Layout::EntryPoint => m.entry_points.push(i),
+            Layout::ExecutionMode => m.execution_modes.push(i),
+            Layout::DebugStringSource => m.debug_string_source.push(i),
+            Layout::DebugName => m.debug_names.push(i),
+            Layout::ModuleProcessed => m.debug_module_processed.push(i),
+            Layout::Annotation => m.annotations.push(i),
+            Layout::TypeConst => m.types_global_values.push(i),
             Layout::Line => match &mut block {
-                Some(b) => b.instructions.push(inst.clone()),
+                Some(b) => b.1.push(i),
                 None => {
                     if func.is_some() {
                         line_outside_block = true;
                     }
-                    m.types_global_values.push(inst.clone())
+                    m.types_global_values.push(i)
                 }
             },
             Layout::VarUndef => {
                 if func.is_none() {
-                    m.types_global_values.push(inst.clone())
+                    m.types_global_values.push(i)
                 } else {
                     match &mut block {
-                        Some(b) => b.instructions.push(inst.clone()),
+                        Some(b) => b.1.push(i),
                         None => rej!(i, LoadErr::DetachedInstruction),
                     }
                 }
@@ -169,9 +214,11 @@ pub fn r2_load(insts: &[dr::Instruction]) -> R2 {
                 if func.is_some() {
                     rej!(i, LoadErr::NestedFunction);
                 }
-                let mut f = dr::Function::new();
-                f.def = Some(inst.clone());
-                func = Some(f);
+                func = Some(OpenFunc {
+                    def: i,
+                    params: vec![],
+                    blocks: vec![],
+                });
             }
             Layout::FunctionEnd => {
                 if func.is_none() {
@@ -180,13 +227,17 @@ pub fn r2_load(insts: &[dr::Instruction]) -> R2 {
                 if block.is_some() {
                     rej!(i, LoadErr::UnclosedBlock);
                 }
-                let mut f = func.take().unwrap();
-                f.end = Some(inst.clone());
-                m.functions.push(f);
+                let f = func.take().unwrap();
+                m.functions.push(PFunc {
+                    def: f.def,
+                    params: f.params,
+                    blocks: f.blocks,
+                    end: i,
+                });
             }
             Layout::Parameter => match &mut func {
                 None => rej!(i, LoadErr::DetachedFunctionParameter),
-                Some(f) => f.parameters.push(inst.clone()),
+                Some(f) => f.params.push(i),
             },
             Layout::Label => {
                 if func.is_none() {
@@ -195,37 +246,37 @@ pub fn r2_load(insts: &[dr::Instruction]) -> R2 {
                 if block.is_some() {
                     rej!(i, LoadErr::NestedBlock);
                 }
-                let mut b = dr::Block::new();
-                b.label = Some(inst.clone());
-                block = Some(b);
+                block = Some((i, vec![]));
             }
             Layout::Terminator => match block.take() {
                 None => rej!(i, LoadErr::MismatchedTerminator),
                 Some(mut b) => {
-                    b.instructions.push(inst.clone());
+                    b.1.push(i);
                     func.as_mut().unwrap().blocks.push(b);
                 }
             },
             Layout::Block => match &mut block {
                 None => rej!(i, LoadErr::DetachedInstruction),
-                Some(b) => b.instructions.push(inst.clone()),
+                Some(b) => b.1.push(i),
             },
         }
     }
     if block.is_some() {
         return R2::Reject {
-            at: insts.len(),
+            at: names.len(),
             errs: vec![LoadErr::UnclosedBlock, LoadErr::UnclosedFunction],
         };
     }
     if func.is_some() {
         return R2::Reject {
-            at: insts.len(),
+            at: names.len(),
             errs: vec![LoadErr::UnclosedFunction],
         };
     }
+    let order = m.order();
+    let reordered = order.iter().enumerate().any(|(k, i)| k != *i);
     R2::Accept(Box::new(R2Accept {
-        module: m,
+        placement: m,
         line_outside_block,
         memory_models,
         hoisted,
@@ -796,4 +847,58 @@ pub fn mutate(cs: &mut Cs, m: &GenModule) -> (Vec<u8>, Vec<&'static str>) {
     }
     let b = bytes.unwrap_or_else(|| words_to_bytes(&w));
     (b, kinds)
+}
+
+// ---------------------------------------------------------------------------
+// Minimal module context for a single instruction (sweeps)
+
+pub const W_FUNCTION: [u32; 5] = [0x0005_0036, 1, 90, 0, 2];
+pub const W_LABEL: [u32; 2] = [0x0002_00f8, 91];
+pub const W_RETURN: [u32; 1] = [0x0001_00fd];
+pub const W_FUNCTION_END: [u32; 1] = [0x0001_0038];
+
+/// header + prelude + the instruction in the smallest well-bracketed context
+/// its layout class needs.
+pub fn wrap_in_module(prelude: &[Plan], p: &Plan) -> Vec<u32> {
+    let mut w = header_words((1, 4), 1000);
+    for q in prelude {
+        w.extend(q.words());
+    }
+    let pw = p.words();
+    match layout(p.opname) {
+        Layout::Function => {
+            w.extend(pw);
+            w.extend(W_FUNCTION_END);
+        }
+        Layout::FunctionEnd => {
+            w.extend(W_FUNCTION);
+            w.extend(pw);
+        }
+        Layout::Parameter => {
+            w.extend(W_FUNCTION);
+            w.extend(pw);
+            w.extend(W_FUNCTION_END);
+        }
+        Layout::Label => {
+            w.extend(W_FUNCTION);
+            w.extend(pw);
+            w.extend(W_RETURN);
+            w.extend(W_FUNCTION_END);
+        }
+        Layout::Terminator => {
+            w.extend(W_FUNCTION);
+            w.extend(W_LABEL);
+            w.extend(pw);
+            w.extend(W_FUNCTION_END);
+        }
+        Layout::Block | Layout::BlockOrDontCare | Layout::DontCare => {
+            w.extend(W_FUNCTION);
+            w.extend(W_LABEL);
+            w.extend(pw);
+            w.extend(W_RETURN);
+            w.extend(W_FUNCTION_END);
+        }
+        _ => w.extend(pw),
+    }
+    w
 }
